@@ -117,10 +117,12 @@ def run(ctx, rep):
                                       % (et, unparse(e), p, callee.name, atag), node=n)
         # return tag of the function itself
         if f.qualname in sigs:
-            _, _, atag, rtag = sigs[f.qualname]
+            _, pin, atag, rtag = sigs[f.qualname]
             for r in returns(f):
                 if r.value is None:
                     continue
+                if isinstance(r.value, ast.Name) and r.value.id == pin:
+                    continue        # identity path (e.g. the parametrisation flag is off): the input is handed back as it came
                 et = _expr_tag(r.value, vt, f, use_name=False)
                 if et is None:
                     continue
